@@ -25,23 +25,24 @@ type Clause struct {
 }
 
 type FuncSpec struct {
-	Key        string
-	Kind       string // func functype extern iface
-	Params     []string
-	Clauses    []*Clause
-	Tags       []string
-	Inline     bool
-	Trusted    bool
-	Pure       bool
-	HasMods    bool
-	NoFrame    bool
-	File       string
-	Line       int
-	Used       bool
-	Opaque     bool
-	InsertOnly map[string][]string // local map variable -> tags: stores never overwrite a present key
-	Unclaimed  map[string]string   // obligation-name suffix -> reason
-	Lets       []*LetSpec
+	Key         string
+	Kind        string // func functype extern iface
+	Params      []string
+	Clauses     []*Clause
+	Tags        []string
+	Inline      bool
+	Trusted     bool
+	Pure        bool
+	HasMods     bool
+	NoFrame     bool
+	File        string
+	Line        int
+	Used        bool
+	Opaque      bool
+	FreshFields bool
+	InsertOnly  map[string][]string // local map variable -> tags: stores never overwrite a present key
+	Unclaimed   map[string]string   // obligation-name suffix -> reason
+	Lets        []*LetSpec
 }
 
 // LetSpec: a contract-local specification function determined by the pre-state:
@@ -155,7 +156,7 @@ func NewSpecDB() *SpecDB {
 }
 
 var clauseKW = map[string]bool{"requires": true, "ensures": true, "ghostensures": true, "modifies": true, "decreases": true, "loop": true,
-	"inline": true, "trusted": true, "pure": true, "tag": true, "noframe": true, "opaque": true, "unclaimed": true, "let": true, "letpost": true, "oncallback": true, "insertonly": true}
+	"inline": true, "trusted": true, "pure": true, "tag": true, "noframe": true, "opaque": true, "unclaimed": true, "let": true, "letpost": true, "oncallback": true, "insertonly": true, "freshfields": true}
 var topKW = map[string]bool{"func": true, "functype": true, "extern": true, "pred": true, "table": true, "specfn": true,
 	"axiom": true, "lemma": true, "ghostfield": true, "iface": true, "const": true, "ghostvar": true, "globalinv": true, "guardedby": true, "readers": true, "writers": true, "globalwriters": true, "mapranges": true, "equiv": true}
 
@@ -361,6 +362,10 @@ func (db *SpecDB) LoadFile(path string, pkg string) error {
 				}
 				cur.InsertOnly[n] = tags
 			}
+		case "freshfields":
+			// the callee initialises reference fields of the fresh object it returns (possibly with objects newer than
+			// the caller's heap terms): those field heaps are re-based at the call site
+			cur.FreshFields = true
 		case "inline":
 			cur.Inline = true
 		case "trusted":
